@@ -553,7 +553,7 @@ func c16ReadCases(path string) ([]*c16Case, error) {
 
 // c16RunCase executes one case under the given chunkings through the three entry points and
 // returns the mismatches against the expectation carried by the case.
-func c16RunCase(ci int, c *c16Case, chunkings [][]int, rec *c16Recorder, sample bool, relayToo bool, budget *int) (runs int, mm []c16Mismatch) {
+func c16RunCase(ci int, c *c16Case, chunkings [][]int, rec *c16Recorder, sample bool, relayToo bool, budget map[string]int, per int) (runs int, mm []c16Mismatch) {
 	etyp := string(c16B(c.Etyp))
 	raw := c16B(c.Bytes)
 	wantLine := c16LineWant(c.Want)
@@ -573,8 +573,10 @@ func c16RunCase(ci int, c *c16Case, chunkings [][]int, rec *c16Recorder, sample 
 		if bad {
 			m := c16Mismatch{Case: ci, Via: "recvLine", Chunks: lens, Want: wantLine, Got: got, C: c,
 				Single: c16ExecLine(c.Mode, etyp, c16Split(raw, ones), nreads)}
-			if *budget > 0 { // recorded for TLC (bounded); all are counted and listed
-				*budget--
+			// recorded for TLC: at most `per` per (framing, noise kinds) signature and worker, so
+			// that a frequent deviation cannot crowd out a rarer one; all are counted
+			if sg := c16Sig(c); budget[sg] < per {
+				budget[sg]++
 				m.ID = rec.record(c, lens, got)
 			}
 			mm = append(mm, m)
@@ -615,6 +617,21 @@ func c16RelayApplies(c *c16Case) bool {
 		}
 	}
 	return true
+}
+
+func c16Sig(c *c16Case) string {
+	set := map[string]bool{}
+	for i := range c.Items {
+		if k := c16Kind(&c.Items[i]); k != "let" && k != "term" {
+			set[k] = true
+		}
+	}
+	var ks []string
+	for k := range set {
+		ks = append(ks, k)
+	}
+	sort.Strings(ks)
+	return fmt.Sprintf("%s/%d/%s", c.Mode, len(c.Want), strings.Join(ks, "+"))
 }
 
 func c16Kind(it *c16Item) string {
@@ -670,7 +687,8 @@ func c16MBT(d *vCtx) error {
 			rng := d.rng(int64(1600 + w))
 			lr, ld, ln := 0, 0, 0
 			lk := map[string]int{}
-			budget := d.pInt("record_mismatches", 16)
+			budget := map[string]int{}
+			per := d.pInt("record_mismatches", 2)
 			var lm []c16Mismatch
 			for j := range jobs {
 				c := &c16Case{}
@@ -688,7 +706,7 @@ func c16MBT(d *vCtx) error {
 					ld++
 					continue
 				}
-				n, mm := c16RunCase(j.ci, c, c16Chunkings(c, allMax, nrand, rng), rec, j.ci%sampleEvery == 0, c16RelayApplies(c), &budget)
+				n, mm := c16RunCase(j.ci, c, c16Chunkings(c, allMax, nrand, rng), rec, j.ci%sampleEvery == 0, c16RelayApplies(c), budget, per)
 				lr += n
 				if len(lm) < 64 {
 					lm = append(lm, mm...)
